@@ -156,7 +156,8 @@ fn split_attrs(attrs: &[syn::Attribute]) -> (Vec<Vec<String>>, Vec<String>, Vec<
         if a.path().is_ident("derive") {
             let mut list = vec![];
             if let Ok(l) = a.meta.require_list() {
-                let parser = syn::punctuated::Punctuated::<syn::Path, syn::Token![,]>::parse_terminated;
+                let parser =
+                    syn::punctuated::Punctuated::<syn::Path, syn::Token![,]>::parse_terminated;
                 if let Ok(ps) = syn::parse::Parser::parse2(parser, l.tokens.clone()) {
                     for p in ps {
                         list.push(squash(&quote::quote!(#p).to_string()));
@@ -177,7 +178,10 @@ impl Emitted {
     pub fn parse(tokens: TokenStream) -> Result<Emitted, String> {
         let file: syn::File = syn::parse2(tokens).map_err(|e| format!("syn::File: {e}"))?;
         if file.items.len() != 1 {
-            return Err(format!("expected one root module, got {} items", file.items.len()));
+            return Err(format!(
+                "expected one root module, got {} items",
+                file.items.len()
+            ));
         }
         let syn::Item::Mod(root) = &file.items[0] else {
             return Err("root item is not a module".into());
@@ -235,7 +239,11 @@ impl Emitted {
                     p.push(s.ident.to_string());
                     self.items.entry(p.clone()).or_insert(Item {
                         path: p,
-                        generics: s.generics.type_params().map(|t| t.ident.to_string()).collect(),
+                        generics: s
+                            .generics
+                            .type_params()
+                            .map(|t| t.ident.to_string())
+                            .collect(),
                         kind: ItemKind::Struct(fields_ast(&s.fields)),
                         derive_lists,
                         attrs,
@@ -266,7 +274,11 @@ impl Emitted {
                         .collect();
                     self.items.entry(p.clone()).or_insert(Item {
                         path: p,
-                        generics: en.generics.type_params().map(|t| t.ident.to_string()).collect(),
+                        generics: en
+                            .generics
+                            .type_params()
+                            .map(|t| t.ident.to_string())
+                            .collect(),
                         kind: ItemKind::Enum(variants),
                         derive_lists,
                         attrs,
@@ -473,7 +485,8 @@ pub fn substitute_generics(ty: &syn::Type, env: &[(String, syn::Type)]) -> syn::
     impl<'a> VisitMut for S<'a> {
         fn visit_type_mut(&mut self, t: &mut syn::Type) {
             if let syn::Type::Path(p) = t {
-                if p.qself.is_none() && p.path.leading_colon.is_none() && p.path.segments.len() == 1 {
+                if p.qself.is_none() && p.path.leading_colon.is_none() && p.path.segments.len() == 1
+                {
                     let seg = &p.path.segments[0];
                     if seg.arguments.is_empty() {
                         let name = seg.ident.to_string();
@@ -602,13 +615,20 @@ impl<'a> RustGraph<'a> {
     }
 
     fn node_of_depth(&self, ty: &syn::Type, module: &[String], depth: usize) -> usize {
-        let key = format!("{}@{}", squash(&quote::quote!(#ty).to_string()), module.join("::"));
+        let key = format!(
+            "{}@{}",
+            squash(&quote::quote!(#ty).to_string()),
+            module.join("::")
+        );
         if let Some(id) = self.memo.borrow().get(&key) {
             return *id;
         }
         let id = self.alloc(key);
         if depth > 60 {
-            return self.broken(id, "expansion depth exceeded (polymorphic recursion?)".into());
+            return self.broken(
+                id,
+                "expansion depth exceeded (polymorphic recursion?)".into(),
+            );
         }
         match ty {
             syn::Type::Paren(p) => {
@@ -645,7 +665,11 @@ impl<'a> RustGraph<'a> {
                 let args = last_args(&p.path);
                 // generic arguments anywhere but the last segment are not emitted
                 if p.path.leading_colon.is_some()
-                    || p.path.segments.first().map(|s| s.ident == "crate").unwrap_or(false)
+                    || p.path
+                        .segments
+                        .first()
+                        .map(|s| s.ident == "crate")
+                        .unwrap_or(false)
                 {
                     let k = path_key(&p.path);
                     let Some(ext) = self.table.get(&k).cloned() else {
@@ -653,9 +677,16 @@ impl<'a> RustGraph<'a> {
                     };
                     self.extern_node(id, &ext, &args, module, depth, &k)
                 } else {
-                    let segs: Vec<String> = p.path.segments.iter().map(|s| s.ident.to_string()).collect();
+                    let segs: Vec<String> = p
+                        .path
+                        .segments
+                        .iter()
+                        .map(|s| s.ident.to_string())
+                        .collect();
                     match self.emitted.resolve_item(module, &segs) {
-                        Err(e) => self.broken(id, format!("unresolved path `{}`: {e}", segs.join("::"))),
+                        Err(e) => {
+                            self.broken(id, format!("unresolved path `{}`: {e}", segs.join("::")))
+                        }
                         Ok(item) => {
                             if item.generics.len() != args.len() {
                                 return self.broken(
@@ -671,8 +702,12 @@ impl<'a> RustGraph<'a> {
                             // arguments are closed in `module`; fields are evaluated in the item's module.
                             // All emitted paths are root-relative, so re-evaluating an argument in another
                             // module of the same tree denotes the same type.
-                            let env: Vec<(String, syn::Type)> =
-                                item.generics.iter().cloned().zip(args.iter().cloned()).collect();
+                            let env: Vec<(String, syn::Type)> = item
+                                .generics
+                                .iter()
+                                .cloned()
+                                .zip(args.iter().cloned())
+                                .collect();
                             let item_mod = &item.path[..item.path.len() - 1];
                             match &item.kind {
                                 ItemKind::Struct(f) => {
@@ -682,12 +717,20 @@ impl<'a> RustGraph<'a> {
                                 ItemKind::Enum(vs) => {
                                     let mut out = vec![];
                                     for (pos, v) in vs.iter().enumerate() {
-                                        let fs = self.fields_nodes(&v.fields, &env, item_mod, depth);
+                                        let fs =
+                                            self.fields_nodes(&v.fields, &env, item_mod, depth);
                                         // the marker variant for unused parameters carries only PhantomData
-                                        if pos + 1 == vs.len() && fs.is_empty() && !v.fields.list().is_empty() {
+                                        if pos + 1 == vs.len()
+                                            && fs.is_empty()
+                                            && !v.fields.list().is_empty()
+                                        {
                                             continue;
                                         }
-                                        out.push((v.index.unwrap_or(pos as u8), v.name.clone(), fs));
+                                        out.push((
+                                            v.index.unwrap_or(pos as u8),
+                                            v.name.clone(),
+                                            fs,
+                                        ));
                                     }
                                     self.set(id, Node::Variant(out));
                                 }
@@ -697,7 +740,10 @@ impl<'a> RustGraph<'a> {
                     }
                 }
             }
-            other => self.broken(id, format!("unsupported type syntax `{}`", quote::quote!(#other))),
+            other => self.broken(
+                id,
+                format!("unsupported type syntax `{}`", quote::quote!(#other)),
+            ),
         }
     }
 
@@ -714,7 +760,10 @@ impl<'a> RustGraph<'a> {
             if args.len() == n {
                 Ok(())
             } else {
-                Err(format!("`{key}` applied to {} arguments, expects {n}", args.len()))
+                Err(format!(
+                    "`{key}` applied to {} arguments, expects {n}",
+                    args.len()
+                ))
             }
         };
         let arg = |i: usize| self.node_of_depth(&args[i], module, depth + 1);
@@ -891,10 +940,18 @@ impl<'a> RustGraph<'a> {
         if p.path.leading_colon.is_some() {
             return match self.table.get(&path_key(&p.path)) {
                 Some(Extern::Order(msb)) => Ok(*msb),
-                _ => Err(format!("bit order `{}` is not a known marker", path_key(&p.path))),
+                _ => Err(format!(
+                    "bit order `{}` is not a known marker",
+                    path_key(&p.path)
+                )),
             };
         }
-        let segs: Vec<String> = p.path.segments.iter().map(|s| s.ident.to_string()).collect();
+        let segs: Vec<String> = p
+            .path
+            .segments
+            .iter()
+            .map(|s| s.ident.to_string())
+            .collect();
         let item = self.emitted.resolve_item(module, &segs)?;
         let n = item.path.len();
         if n >= 3 && item.path[n - 3] == "bitvec" && item.path[n - 2] == "order" {
